@@ -9,10 +9,11 @@ import itertools
 import json
 import random
 
-from common import Check, P, Zr, L, T, run_shards
+from common import BuildError, Check, P, Zr, L, T, run_shards
 
 PID = "C15"
 HEADER = "From TV Require Import Base Model.Bus Model.Topics.\nFrom Coq Require Import String Ascii."
+BUS_HEADER = "From TV Require Import Base Model.Bus."
 
 
 def run_bus(tab, ops):
@@ -210,6 +211,32 @@ def topic_cases(rng, n):
     return out, empty_ok
 
 
+def topic_collision():
+    """exhaustive over short names with separator-like characters and over realistic names that differ in one
+    such character: two distinct names sharing a topic, or an input topic that is some output topic"""
+    from tickit.utils.topic_naming import input_topic, output_topic
+    alpha = ["a", "b", "_", ":", " ", "/", ".", "-", "+", "#", "A", "1"]
+    names = list(alpha) + [x + y for x in alpha for y in alpha]
+    for stem in ("rack{}psu", "a{}b{}c", "dev{}1", "{}in", "x{}out", "tickit{}a"):
+        for c in ["_", ":", " ", "/", ".", "-"]:
+            names.append(stem.replace("{}", c))
+    seen_in, seen_out = {}, {}
+    for n in names:
+        try:
+            i, o = input_topic(n), output_topic(n)
+        except Exception:  # noqa  -- a rejected name has no topic
+            continue
+        if i in seen_in:
+            return seen_in[i], n, f"both read their inputs from topic {i!r}"
+        if o in seen_out:
+            return seen_out[o], n, f"both publish on topic {o!r}"
+        seen_in[i], seen_out[o] = n, n
+    for i, n in seen_in.items():
+        if i in seen_out:
+            return n, seen_out[i], f"input topic of the first is the output topic of the second ({i!r})"
+    return None
+
+
 def render_topic(tc):
     return T(*[coq_str(x) for x in tc])
 
@@ -221,7 +248,7 @@ REASONS = {1: "logs-differ-from-model", 2: "received-sequences-differ-from-model
 def evaluate(cases):
     obs = [run_bus(tab, ops) for tab, ops in cases]
     terms = [render(tab, ops, o) for (tab, ops), o in zip(cases, obs)]
-    return obs, run_shards(PID, HEADER, "case", "check", terms, shard_size=500)
+    return obs, run_shards(PID, BUS_HEADER, "case", "check", terms, shard_size=500)
 
 
 def nontrivial(tab, ops, o):
@@ -262,7 +289,18 @@ def main(tier, seed):
                       dict(kind="bus", handlers=[[c, v, outs] for (c, v), outs in tab.items()], ops=ops, observed=obs[i], codes=bad[i]))
     # topic naming
     tcs, empty_ok = topic_cases(rng, 300 if tier == "quick" else 3000)
-    tbad = run_shards(PID + "_topics", HEADER, "topic_case", "check_topic", [render_topic(t) for t in tcs], shard_size=400)
+    try:
+        tbad = run_shards(PID + "_topics", HEADER, "topic_case", "check_topic", [render_topic(t) for t in tcs], shard_size=400)
+    except BuildError as e:
+        # the topic model no longer compiles against the constants of the current source (the proof is already
+        # reported as broken): search the implementation itself for two names that now share a topic
+        tbad = {}
+        ck.proof_broken.append("topic model cannot be evaluated: " + str(e)[:300])
+    hit = topic_collision()
+    if hit:
+        done.add(32)
+        ck.report(REASONS[32], f"topic naming: {hit[2]} for component names {hit[0]!r} and {hit[1]!r}",
+                  dict(kind="topic", names=[hit[0], hit[1]], what=hit[2]))
     for t in tcs:
         ck.count("topic:" + t[0] + "|" + t[1], t[0] != t[1])
     ck.sample(dict(topic_case=tcs[0]))
@@ -284,8 +322,16 @@ def replay(rp):
     if rp.get("kind") == "topic":
         from tickit.utils.topic_naming import input_topic, output_topic
         a, b = rp["names"]
+        if a == b == "":
+            try:
+                input_topic("")
+                print("input_topic('') is accepted")
+                return 1
+            except ValueError:
+                return 0
         print(a, b, input_topic(a), output_topic(a), input_topic(b), output_topic(b))
-        return 0
+        clash = a != b and (input_topic(a) == input_topic(b) or output_topic(a) == output_topic(b))
+        return 1 if clash or input_topic(a) == output_topic(b) or input_topic(b) == output_topic(a) else 0
     tab = {(c, v): [tuple(x) for x in outs] for c, v, outs in rp["handlers"]}
     ops = [tuple(o) for o in rp["ops"]]
     obs, bad = evaluate([(tab, ops)])
